@@ -52,6 +52,10 @@ def _case(draw):
         c["shape"], c["ctx"], c["dom"], c["base"] = [draw(st.integers(2, 4))], 1, "R", draw(st.sampled_from(["standard", "conditional"]))
         c["spec"] = {"t": "composite", "parts": [{"t": "lu", "identity_init": False, "cache": False}, {"t": "glu"}]}
         c["narrow"] = 0.0
+    if c["kind"] in ("maf", "realnvp") and draw(st.booleans()):
+        # constructor flags of the library flows (all inert or deterministic in evaluation mode) and parameters away from initialisation
+        c["lib"] = {"dropout": draw(st.sampled_from([0.0, 0.3])), "bn_within": draw(st.booleans()), "bn_between": draw(st.booleans()),
+                    "perturb": draw(st.sampled_from([0.0, 0.2, 0.4]))}
     c["rows"] = draw(st.sampled_from([1, 2, 3, 4]))
     c["n"] = draw(st.integers(1, 7))
     c["embed"] = draw(st.booleans())
@@ -95,11 +99,23 @@ def run_case(case):
         g = torch.Generator().manual_seed(case["seed"] + 1)
         ctx = None
         rows = case["rows"]
+        lib = case.get("lib") or {}
+        kw_lib = dict(dropout_probability=float(lib.get("dropout", 0.0)), batch_norm_within_layers=bool(lib.get("bn_within", False)),
+                      batch_norm_between_layers=bool(lib.get("bn_between", False)))
+
+        def _moved(fl):
+            # the library flows start next to the identity (their last layers are initialised at 1e-3): move them, as training would
+            if lib.get("perturb"):
+                gp = torch.Generator().manual_seed(case["seed"] + 77)
+                with torch.no_grad():
+                    for p_ in fl.parameters():
+                        p_.add_(float(lib["perturb"]) * torch.randn(p_.shape, generator=gp))
+            return fl
         if case["kind"] == "maf":
-            flow = MaskedAutoregressiveFlow(case["features"], 8, 2, 1, use_random_permutations=bool(case["seed"] % 2))
+            flow = _moved(MaskedAutoregressiveFlow(case["features"], 8, 2, 1, use_random_permutations=bool(case["seed"] % 2), **kw_lib))
             D, ctxk, cubic = case["features"], None, False
         elif case["kind"] == "realnvp":
-            flow = SimpleRealNVP(case["features"], 8, 2, 1)
+            flow = _moved(SimpleRealNVP(case["features"], 8, 2, 1, **kw_lib))
             D, ctxk, cubic = case["features"], None, False
         else:
             b = zoo.instantiate(case)
